@@ -1,4 +1,5 @@
 //! Server / runtime / TLS checks: L2 stepped accept loop, L3 in-thread worker, L4 end-to-end.
 pub mod l2;
 pub mod l2props;
+pub mod l3;
 pub mod props;
